@@ -1,16 +1,20 @@
 // append-to: src/buffer.rs
-// harness: k_buffer_extend props=C01,C02,C06 kind=bounded tier=quick timeout=600 obligation=Buffer::extend/E1-E4 bound="<= 2 existing lines, n <= 3, cols <= 2"
-// harness: k_gc_drop props=C13,C14 kind=bounded tier=quick timeout=900 obligation=Buffer::gc+trim_scrollback(drain exactness, also when the iterator is dropped unconsumed) bound="<= 5 lines of width 1, rows <= 2, limit in {0,1,2,11}"
-// harness: k_reflow_shape props=C01,C02,C10 kind=bounded tier=quick timeout=1200 obligation=reflow/E1,E2 bound="<= 3 lines, old width <= 2, new width <= 3"
-// harness: k_resize_cursor props=C10,C16 kind=bounded tier=thorough timeout=2400 obligation=Buffer::resize(cursor stays on its character; text above the cursor's logical line unchanged) bound="<= 3 lines of width 2 (no scrollback or 1 line), rows <= 2, new size in 1..=3 x 1..=3"
-// harness: k_reflow_text props=C10,C09 kind=bounded tier=thorough timeout=1800 obligation=reflow(logical text preserved) bound="<= 3 lines, old width 2, new width in 1..=3, cells from {blank, 'a', 'b'}"
+// harness: k_buffer_extend props=C01,C02,C06 kind=bounded tier=quick timeout=600 obligation=Buffer::extend/E1-E4 bound="four concrete geometries (cols, rows, n, new cols) in {(1,1,0,1),(2,1,1,2),(1,2,2,2),(2,2,3,1)}, symbolic pen / wrap mark"
+// harness: k_gc_drop_a props=C13,C14 kind=bounded tier=thorough timeout=900 obligation=Buffer::gc+trim_scrollback(drain exactness, also when the iterator is dropped unconsumed) bound="limit 0, 2 rows, 3 scrollback lines, width 1; symbolic trim flag and consume/drop"
+// harness: k_gc_drop_b props=C13,C14 kind=bounded tier=thorough timeout=900 obligation=Buffer::gc+trim_scrollback bound="limit 1, 1 row, 3 scrollback lines"
+// harness: k_gc_drop_c props=C13,C14 kind=bounded tier=thorough timeout=900 obligation=Buffer::gc+trim_scrollback bound="limit 2, 1 row, 3 scrollback lines"
+// harness: k_gc_drop_d props=C13,C14 kind=bounded tier=thorough timeout=900 obligation=Buffer::gc+trim_scrollback bound="limit 11, 1 row, 3 scrollback lines (no trim)"
+// harness: k_reflow_2x2_to_1 props=C01,C02,C10 kind=bounded tier=thorough timeout=1800 obligation=reflow/E1,E2+logical text preserved bound="2 lines of width 2 -> width 1, cells from {blank, a}, symbolic wrap marks"
+// harness: k_reflow_2x2_to_3 props=C01,C02,C10 kind=bounded tier=thorough timeout=1800 obligation=reflow/E1,E2+logical text preserved bound="2 lines of width 2 -> width 3"
+// harness: k_reflow_3x1_to_2 props=C01,C02,C10 kind=bounded tier=thorough timeout=1800 obligation=reflow/E1,E2+logical text preserved bound="3 lines of width 1 -> width 2"
+// harness: k_reflow_3x2_to_3 props=C01,C02,C10 kind=bounded tier=thorough timeout=1800 obligation=reflow/E1,E2+logical text preserved bound="3 lines of width 2 -> width 3"
+// harness: k_resize_cursor props=C10,C16 kind=bounded tier=thorough timeout=2400 obligation=Buffer::resize(cursor stays on its character; text above the cursor's logical line unchanged) bound="six concrete (rows, lines, new cols, new rows) cases, old width 2, symbolic cells, wrap marks and cursor"
 #[cfg(kani)]
 mod verif_kani_buffer {
     use super::*;
 
     fn any_cell() -> Cell {
-        let k: u8 = kani::any();
-        if k == 0 { Cell::blank(Pen::default()) } else if k == 1 { Cell::new('a', Pen::default()) } else { Cell::new('b', Pen::default()) }
+        if kani::any() { Cell::blank(Pen::default()) } else { Cell::new('a', Pen::default()) }
     }
 
     fn any_line(width: usize) -> Line {
@@ -24,21 +28,11 @@ mod verif_kani_buffer {
         l
     }
 
-    #[kani::proof]
-    #[kani::unwind(5)]
-    fn k_buffer_extend() {
-        let cols: usize = kani::any();
-        kani::assume(cols >= 1 && cols <= 2);
-        let rows: usize = kani::any();
-        kani::assume(rows >= 1 && rows <= 2);
+    fn extend_case(cols: usize, rows: usize, n: usize, newcols: usize) {
         let mut b = Buffer::new(cols, rows, None, None);
         let before = b.lines.len();
         let first_wrapped: bool = kani::any();
         b.lines[0].wrapped = first_wrapped;
-        let n: usize = kani::any();
-        kani::assume(n <= 3);
-        let newcols: usize = kani::any();
-        kani::assume(newcols >= 1 && newcols <= 2);
         let mut pen = Pen::default();
         if kani::any() { pen.set_italic(); }
         b.extend(n, newcols, &pen);
@@ -55,78 +49,86 @@ mod verif_kani_buffer {
             i += 1;
         }
         assert!(b.cols == cols && b.rows == rows && !b.trim_needed);
-        kani::cover!(n == 3);
     }
 
     #[kani::proof]
     #[kani::unwind(8)]
-    fn k_gc_drop() {
+    fn k_buffer_extend() {
         let which: u8 = kani::any();
-        let limit = if which == 0 { 0 } else if which == 1 { 1 } else if which == 2 { 2 } else { 11 };
-        let rows: usize = kani::any();
-        kani::assume(rows >= 1 && rows <= 2);
+        match which % 4 {
+            0 => extend_case(1, 1, 0, 1),
+            1 => extend_case(2, 1, 1, 2),
+            2 => extend_case(1, 2, 2, 2),
+            _ => extend_case(2, 2, 3, 1),
+        }
+        kani::cover!(which % 4 == 3);
+    }
+
+    fn tag(i: usize) -> char {
+        if i == 0 { 'x' } else if i == 1 { 'y' } else if i == 2 { 'z' } else { ' ' }
+    }
+
+    /// `extra` scrollback lines tagged x, y, z followed by `rows` blank view lines (width 1);
+    /// identity of a line is its tag, so no Vec<Line> has to be cloned or compared
+    fn gc_case(limit: usize, rows: usize, extra: usize) {
         let mut b = Buffer::new(1, rows, Some(limit), None);
-        // scrollback: `extra` tagged lines on top
-        let extra: usize = kani::any();
-        kani::assume(extra <= 3);
         let mut i = 0;
         while i < extra {
             let mut l = Line::blank(1, Pen::default());
-            l.cells[0] = Cell::new(if i == 0 { 'x' } else if i == 1 { 'y' } else { 'z' }, Pen::default());
+            l.cells[0] = Cell::new(tag(i), Pen::default());
             b.lines.insert(i, l);
             i += 1;
         }
         b.trim_needed = kani::any();
         let trim = b.trim_needed;
-        let before: Vec<Line> = b.lines.clone();
+        let len_before = b.lines.len();
         let hard = limit + limit / 10;
         let consume: bool = kani::any();
-        let mut drained: Vec<Line> = Vec::new();
+        let mut n_drained = 0;
+        let mut drained_ok = true;
         {
             let it = b.gc();
             if let Some(it) = it {
                 if consume {
                     for l in it {
-                        drained.push(l);
+                        if l.cells[0].char() != tag(n_drained) {
+                            drained_ok = false;
+                        }
+                        n_drained += 1;
                     }
                 }
             }
         }
-        let sb_before = before.len() - rows;
-        if trim && sb_before > hard {
-            // [C13] trimmed down to the soft limit, also when the iterator was dropped unconsumed
-            let excess = sb_before - limit;
-            assert!(b.lines.len() == before.len() - excess);
-            // [C14] the oldest lines were removed, the rest is untouched and in order
-            let mut j = 0;
-            while j < b.lines.len() {
-                assert!(b.lines[j] == before[j + excess]);
-                j += 1;
-            }
-            if consume {
-                assert!(drained.len() == excess);
-                let mut j = 0;
-                while j < excess {
-                    assert!(drained[j] == before[j]);
-                    j += 1;
-                }
-            }
-        } else {
-            assert!(b.lines.len() == before.len());
-            assert!(drained.is_empty());
+        let sb_before = len_before - rows;
+        let excess = if trim && sb_before > hard { sb_before - limit } else { 0 };
+        // [C13] trimmed down to the soft limit, also when the iterator was dropped unconsumed
+        assert!(b.lines.len() == len_before - excess);
+        // [C14] the oldest lines were removed, the rest is untouched and in order
+        let mut j = 0;
+        while j < b.lines.len() {
+            assert!(b.lines[j].cells[0].char() == tag(j + excess));
+            j += 1;
+        }
+        if consume {
+            assert!(n_drained == excess && drained_ok);
         }
         assert!(!b.trim_needed);
-        kani::cover!(trim && sb_before > hard && consume);
-        kani::cover!(trim && sb_before > hard && !consume);
     }
 
     #[kani::proof]
     #[kani::unwind(8)]
-    fn k_reflow_shape() {
-        let n: usize = kani::any();
-        kani::assume(n >= 1 && n <= 3);
-        let w: usize = kani::any();
-        kani::assume(w >= 1 && w <= 2);
+    fn k_gc_drop_a() { gc_case(0, 2, 3); kani::cover!(true); }
+    #[kani::proof]
+    #[kani::unwind(8)]
+    fn k_gc_drop_b() { gc_case(1, 1, 3); kani::cover!(true); }
+    #[kani::proof]
+    #[kani::unwind(8)]
+    fn k_gc_drop_c() { gc_case(2, 1, 3); kani::cover!(true); }
+    #[kani::proof]
+    #[kani::unwind(8)]
+    fn k_gc_drop_d() { gc_case(11, 1, 3); kani::cover!(true); }
+
+    fn lines_of(n: usize, w: usize) -> Vec<Line> {
         let mut lines: Vec<Line> = Vec::new();
         let mut i = 0;
         while i < n {
@@ -136,17 +138,7 @@ mod verif_kani_buffer {
         // Buffer::wf: the last line is never wrapped
         let last = lines.len() - 1;
         lines[last].wrapped = false;
-        let cols: usize = kani::any();
-        kani::assume(cols >= 1 && cols <= 3 && cols != w);
-        let out = reflow(lines.into_iter(), cols);
-        let mut j = 0;
-        while j < out.len() {
-            assert!(out[j].cells.len() == cols);
-            j += 1;
-        }
-        assert!(out.len() >= 1);
-        assert!(!out[out.len() - 1].wrapped);
-        kani::cover!(out.len() == 4);
+        lines
     }
 
     /// logical text of a sequence of rows: rows joined while wrapped; trailing blanks of each
@@ -178,36 +170,38 @@ mod verif_kani_buffer {
         out
     }
 
-    #[kani::proof]
-    #[kani::unwind(10)]
-    fn k_reflow_text() {
-        let n: usize = kani::any();
-        kani::assume(n >= 1 && n <= 3);
-        let mut lines: Vec<Line> = Vec::new();
-        let mut i = 0;
-        while i < n {
-            lines.push(any_line(2));
-            i += 1;
-        }
-        let last = lines.len() - 1;
-        lines[last].wrapped = false;
+    /// one concrete geometry, symbolic cells ({blank, 'a'}) and wrap marks: every output line has
+    /// the new width, the last one is not wrapped, and the logical text is unchanged
+    fn reflow_case(n: usize, w: usize, cols: usize) {
+        let lines = lines_of(n, w);
         let before = logical(&lines);
-        let cols: usize = kani::any();
-        kani::assume(cols >= 1 && cols <= 3 && cols != 2);
         let out = reflow(lines.into_iter(), cols);
+        let mut j = 0;
+        while j < out.len() {
+            assert!(out[j].cells.len() == cols);
+            j += 1;
+        }
+        assert!(out.len() >= 1);
+        assert!(!out[out.len() - 1].wrapped);
         let after = logical(&out);
         assert!(before == after);
-        kani::cover!(out.len() >= 3);
+        kani::cover!(out.len() != n);
     }
 
     #[kani::proof]
     #[kani::unwind(10)]
-    fn k_resize_cursor() {
-        // a small primary buffer with distinct-ish content, cursor on a character of the text
-        let rows: usize = kani::any();
-        kani::assume(rows >= 1 && rows <= 2);
-        let total: usize = kani::any();
-        kani::assume(total >= rows && total <= 3);
+    fn k_reflow_2x2_to_1() { reflow_case(2, 2, 1) }
+    #[kani::proof]
+    #[kani::unwind(10)]
+    fn k_reflow_2x2_to_3() { reflow_case(2, 2, 3) }
+    #[kani::proof]
+    #[kani::unwind(10)]
+    fn k_reflow_3x1_to_2() { reflow_case(3, 1, 2) }
+    #[kani::proof]
+    #[kani::unwind(10)]
+    fn k_reflow_3x2_to_3() { reflow_case(3, 2, 3) }
+
+    fn resize_case(rows: usize, total: usize, new_cols: usize, new_rows: usize) {
         let mut b = Buffer::new(2, rows, None, None);
         b.lines.clear();
         let mut i = 0;
@@ -223,15 +217,11 @@ mod verif_kani_buffer {
         let off = total - rows;
         let ch = b.lines[off + crow].cells[ccol].char();
         kani::assume(ch != ' ');
-        // logical text strictly above the cursor's logical line
         let mut first = off + crow;
         while first > 0 && b.lines[first - 1].wrapped {
             first -= 1;
         }
         let above_before = logical(&b.lines[..first]);
-        let new_cols: usize = kani::any();
-        let new_rows: usize = kani::any();
-        kani::assume(new_cols >= 1 && new_cols <= 3 && new_rows >= 1 && new_rows <= 3);
         let (nc, nr) = b.resize(new_cols, new_rows, (ccol, crow));
         // [C02] geometry
         assert!(b.cols == new_cols && b.rows == new_rows && b.lines.len() >= new_rows);
@@ -246,6 +236,20 @@ mod verif_kani_buffer {
         }
         let above_after = logical(&b.lines[..nfirst]);
         assert!(above_before == above_after);
-        kani::cover!(new_cols == 1 && total == 3);
+    }
+
+    #[kani::proof]
+    #[kani::unwind(10)]
+    fn k_resize_cursor() {
+        let which: u8 = kani::any();
+        match which % 6 {
+            0 => resize_case(1, 2, 1, 1),
+            1 => resize_case(2, 2, 3, 1),
+            2 => resize_case(2, 3, 1, 2),
+            3 => resize_case(1, 3, 3, 3),
+            4 => resize_case(2, 3, 3, 2),
+            _ => resize_case(2, 2, 1, 3),
+        }
+        kani::cover!(which % 6 == 2);
     }
 }
